@@ -268,12 +268,19 @@ def _list_of_interfaces(il):
                     ok = kind(v) == 'elem' or (
                         kind(v) == 'sub' and contains(
                             v[1], lambda z: kind(z) == 'attr' and
-                            z[2] == 'knownInterfaces'))
+                            z[2] == 'knownInterfaces')) or _known_get(v)
                     if not ok:
                         return False
         elif kind(x) not in ('item',):
             return False
     return True
+
+
+def _known_get(v):
+    return kind(v) == 'call' and kind(v[2]) == 'attr' and \
+        v[2][2] == 'get' and v[3] and contains(
+            v[2][1], lambda z: kind(z) == 'attr' and
+            z[2] == 'knownInterfaces')
 
 
 def _appends_are_interfaces(p):
@@ -297,6 +304,16 @@ def _appends_are_interfaces(p):
                 elif kind(v) == 'sub':
                     ok = contains(v[1], lambda z: kind(z) == 'attr' and
                                   z[2] == 'knownInterfaces')
+                elif _known_get(v):
+                    # knownInterfaces.get(name, default), appended on the
+                    # branch where the result is not the default
+                    dflt = v[3][1] if len(v[3]) > 1 else NONE
+                    ok = any(kind(c) == 'cmp' and c[2] == v and
+                             c[3] == dflt and c[1] in ('is', 'is not') and
+                             ((c[1] == 'is not') == pol)
+                             for c, pol in bp.cond) or (
+                        dflt == NONE and any(c == v and pol
+                                             for c, pol in bp.cond))
                 else:
                     ok = False
                 if not ok:
